@@ -927,7 +927,11 @@ class DocutilsRenderer(RendererProtocol):
             # markdown-it encodes unsafe characters with percent-encoding
             # we want to get back the original, source input
             uri = self.md.normalizeLinkText(uri)
-            _parsed = urlparse(uri)
+            try:
+                _parsed = urlparse(uri)
+            except ValueError:
+                # e.g. an invalid IPv6 netloc; there are then no parts to substitute
+                _parsed = urlparse("")
             parsed = {
                 "uri": uri,
                 "scheme": _parsed.scheme,
@@ -1046,7 +1050,19 @@ class DocutilsRenderer(RendererProtocol):
         explicit = (token.info != "auto") and bool(token.children)
 
         # split the href up into parts
-        uri_parts = urlparse(href)
+        try:
+            uri_parts = urlparse(href)
+        except ValueError as exc:
+            # e.g. an invalid IPv6 netloc
+            self.create_warning(
+                f"Invalid inventory link {href!r}: {exc}",
+                MystWarnings.IREF_MISSING,
+                line=token_line(token, default=0),
+                append_to=self.current_node,
+            )
+            if explicit:
+                self.render_children(token)
+            return
         target = uri_parts.fragment
         invs, domains, otypes = None, None, None
         if uri_parts.path:
